@@ -171,6 +171,53 @@ def apiAccept (p : Pair) (x : Side) (id : Nat) : Step :=
              (.sock nid (some a) (some ss))
   | some _ => fail r.1 .runtime
 
+/-- second half of `DataLinkConnection.connect`: the answer `q` to the CONNECT (or none) -/
+def connectFinish (p : Pair) (x : Side) (id : Nat) (q : Option Pdu) : Pair × Py Out :=
+  let s3 := (p.get x).sock id
+  match q with
+  | none => (p, .error (.llcp EPIPE))
+  | some (.dm ..) => (p.set x (setSock (p.get x) id { s3 with st := .closed }), .error .connectRefused)
+  | some (.cc _ ss) =>
+    (p.set x (setSock (p.get x) id { s3 with peer := some ss, recvBuf := 1, st := .established }), .ok .unit)
+  | some _ => (p, .error .runtime)
+
+/-- `llc.connect(socket, dest)` on a data link connection socket while the application
+at the other controller calls `accept` on its socket `lid`: inside the wait for the
+answer the link runs, the peer accepts, the link runs again.  (Not an operation of the
+history alphabet of the theorems; used by the driver so that a connect can complete in
+the single-threaded correspondence runs.)  Third component: outcome of the peer's accept. -/
+def apiConnectServed (p : Pair) (x : Side) (id : Nat) (dest : Dest) (lid : Nat) :
+    Py (Pair × Py Out × Option (Py Out)) :=
+  match bindIfUnbound (p.get x) id with
+  | .error e => pure (p, .error e, none)
+  | .ok cb =>
+    let p1 := p.set x cb
+    let s := cb.sock id
+    if s.kind ≠ .dlc then throw .outOfFuel else
+    if s.st = .established then pure (p1, .error (.llcp EISCONN), none) else
+    if s.st = .connect then pure (p1, .error (.llcp EALREADY), none) else
+    if s.st ≠ .closed then pure (p1, .error (.llcp EPIPE), none) else
+    match s.addr with
+    | none => throw .outOfFuel
+    | some a =>
+      let s2 : Sock := { s with st := .connect, sendq := s.sendq ++ [connectPdu a dest] }
+      let p2 := p1.set x (setSock cb id s2)
+      match s2.recvq with
+      | h :: t =>
+        let r := connectFinish (p2.set x (setSock (p2.get x) id { s2 with recvq := t })) x id (some h)
+        pure (r.1, r.2, none)
+      | [] =>
+        pump pumpRounds p2 >>= fun p3 =>
+        apiAccept p3 (!x) lid >>= fun ra =>
+        pump pumpRounds ra.1 >>= fun p4 =>
+        match ((p4.get x).sock id).recvq with
+        | h :: t =>
+          let r := connectFinish (p4.set x (setSock (p4.get x) id { (p4.get x).sock id with recvq := t })) x id (some h)
+          pure (r.1, r.2, some ra.2)
+        | [] =>
+          let r := connectFinish p4 x id none
+          pure (r.1, r.2, some ra.2)
+
 /-- `self.peer and dest != self.peer` -/
 def peerMismatch : Option Nat → Nat → Bool
   | some pr, dest => pr != 0 && dest != pr
